@@ -120,6 +120,6 @@ PROPS["C19"] = {
 
 NA = {
     "C02": "whole-system history over real TCP and three threads: no function contract within reach expresses it (Kani has no threads, tokio I/O crashes the Kani compiler); its ingredients are decided under C03/C06/C08/C09/C10/C13",
-    "C14": "every rule is control flow inside async fns that hold the physical layer (check_unsolicited, perform_unsolicited_response_series, wait_for_unsolicited_confirm, handle_deferred_read): outside both verifiers",
+    "C14": "every rule is control flow inside async fns that hold the physical layer and tokio timers (check_unsolicited, perform_unsolicited_response_series, wait_for_unsolicited_confirm, handle_deferred_read). Contracts were written for the first two (scripted read_until in place of the timer select, hooked callees: wip/solwait) but CBMC reaches no verdict on them within 700-1200 s, so nothing is claimed; DeferredRead::set iterates a HeaderCollection (dispatcher does not finish). Only write_unsolicited_data and DeferredInfo::merge (under C12) are proved",
     "C15": "the acceptance predicates are async fns taking &mut PhysLayer (validate_non_read_response, process_read_response, handle_unsolicited): any harness reaching them crashes the Kani compiler; Verus has no route to them",
 }
